@@ -50,6 +50,7 @@ def peer_cfg(script, p):
         "hold": p["hold"], "idleHold": p["idleHold"], "connRetry": p["connRetry"],
         "passive": bool(p["passive"]), "localAddr": canon(p["localAddr"]),
         "remote": canon(p["remote"]),
+        "port": str(p.get("port") or 179),
         "caps": [{"code": c["code"], "val": list(c["val"])} for c in p["caps"]],
         "openReply": notif_rec(p.get("openReply")),
         "noHandler": bool(p.get("noHandler")),
@@ -76,8 +77,9 @@ def norm_event(e):
     rs = []
     if e["e"] == "ret" and e["n"] == "listPeers":
         rs = [x for x in e["r"].split(",") if x]
-    return {"e": e["e"], "p": e["p"], "c": e["c"] if e["e"] != "dial" else "", "n": e["n"], "k": k,
-            "b": e["b"], "r": e["r"] if e["e"] != "dial" else "", "rs": rs,
+    # a dial event carries the port (c) and the local address (r) the dialer was asked to use
+    return {"e": e["e"], "p": e["p"], "c": e["c"], "n": e["n"], "k": k,
+            "b": e["b"], "r": canon(e["r"]) if e["e"] == "dial" and e["r"] else e["r"], "rs": rs,
             "caps": [{"code": c["code"], "val": list(c["val"])} for c in e["caps"]],
             "rid": rid, "t": e["t"]}
 
